@@ -85,7 +85,7 @@ func c15SdkSteps(c *ctxT, b *strings.Builder) {
 		c.facts["C15."+name] = xs
 	}
 	missing := func(why string) {
-		for _, n := range []string{"sdkCancelSteps", "sdkDeleteProposalSteps", "sdkChargeSteps", "sdkChargeBody", "sdkChargeCoin", "sdkChargeDest", "sdkRefundCallback", "sdkBurnSteps", "sdkBurnCallback", "sdkDeleteVotesSteps"} {
+		for _, n := range []string{"sdkCancelSteps", "sdkDeleteProposalSteps", "sdkChargeSteps", "sdkChargeBody", "sdkChargeCoin", "sdkChargeDest", "sdkRefundCallback", "sdkBurnSteps", "sdkBurnCallback", "sdkDeleteVotesSteps", "sdkSubmitSteps", "sdkSubmitLoop", "sdkAddVoteSteps"} {
 			list(n, "SDK gov keeper not readable: "+why, []string{"other:<" + why + ">"})
 		}
 		fmt.Fprintf(b, "def sdkGovSource : String := %s\n\n", leanStr("missing: "+why))
@@ -242,6 +242,122 @@ func c15SdkSteps(c *ctxT, b *strings.Builder) {
 		{"charges+=burnAmount", []string{"cancellationCharges = cancellationCharges.Add( sdk.NewCoin( coin.Denom, burnAmount, ), )"}},
 	}))
 	list("sdkChargeDest", "… what happens to the charges, by destination (the cases of the switch in source order)", destTags)
+
+	// ---- SubmitProposal
+	var stop, sloop []string
+	for _, st := range body("SubmitProposal") {
+		src := squash(c.src(st))
+		if is, ok := st.(*ast.IfStmt); ok && is.Init == nil && squash(c.src(is.Cond)) == "err != nil" {
+			continue
+		}
+		switch {
+		case src == "sdkCtx := sdk.UnwrapSDKContext(ctx)":
+			stop = append(stop, "sdkCtx")
+		case src == "err := keeper.assertMetadataLength(metadata)":
+			stop = append(stop, "assertMetadata")
+		case src == "err = keeper.assertSummaryLength(summary)":
+			stop = append(stop, "assertSummary")
+		case src == "err = keeper.assertMetadataLength(title)":
+			stop = append(stop, "assertTitle")
+		case src == `msgsStr := ""`:
+			stop = append(stop, "msgsStr0")
+		case strings.HasPrefix(src, "for _, msg := range messages {"):
+			stop = append(stop, "msgLoop")
+			for _, s2 := range st.(*ast.RangeStmt).Body.List {
+				s2s := squash(c.src(s2))
+				if is, ok := s2.(*ast.IfStmt); ok && is.Init == nil && squash(c.src(is.Cond)) == "err != nil" {
+					continue
+				}
+				switch {
+				case strings.HasPrefix(s2s, "msgsStr += "):
+					sloop = append(sloop, "msgsStr+=")
+				case strings.HasPrefix(s2s, "if m, ok := msg.(sdk.HasValidateBasic); ok { if err := m.ValidateBasic(); err != nil { return v1.Proposal{}, errorsmod.Wrap(types.ErrInvalidProposalMsg"):
+					sloop = append(sloop, "validateBasic")
+				case s2s == "signers, _, err := keeper.cdc.GetMsgV1Signers(msg)":
+					sloop = append(sloop, "getSigners")
+				case strings.HasPrefix(s2s, "if len(signers) != 1 { return v1.Proposal{}, types.ErrInvalidSigner"):
+					sloop = append(sloop, "oneSigner")
+				case strings.HasPrefix(s2s, "if !bytes.Equal(signers[0], keeper.GetGovernanceAccount(ctx).GetAddress()) { return v1.Proposal{}, errorsmod.Wrapf(types.ErrInvalidSigner"):
+					sloop = append(sloop, "signerIsGov")
+				case s2s == "handler := keeper.router.Handler(msg)":
+					sloop = append(sloop, "handler")
+				case strings.HasPrefix(s2s, "if handler == nil { return v1.Proposal{}, errorsmod.Wrap(types.ErrUnroutableProposalMsg"):
+					sloop = append(sloop, "routable")
+				case strings.HasPrefix(s2s, "if msg, ok := msg.(*v1.MsgExecLegacyContent); ok { cacheCtx, _ := sdkCtx.CacheContext() if _, err := handler(cacheCtx, msg); err != nil {"):
+					sloop = append(sloop, "legacyDryRun")
+				default:
+					if len(s2s) > 160 {
+						s2s = s2s[:160] + "…"
+					}
+					sloop = append(sloop, "other:"+s2s)
+				}
+			}
+		case src == "proposalID, err := keeper.ProposalID.Next(ctx)":
+			stop = append(stop, "nextId")
+		case src == "params, err := keeper.Params.Get(ctx)":
+			stop = append(stop, "getParams")
+		case src == "submitTime := sdkCtx.BlockHeader().Time":
+			stop = append(stop, "submitTime=blockTime")
+		case src == "depositPeriod := params.MaxDepositPeriod":
+			stop = append(stop, "depositPeriod=maxDepositPeriod")
+		case src == "proposal, err := v1.NewProposal(messages, proposalID, submitTime, submitTime.Add(*depositPeriod), metadata, title, summary, proposer, expedited)":
+			stop = append(stop, "newProposal(depositEnd=submitTime+depositPeriod)")
+		case src == "err = keeper.SetProposal(ctx, proposal)":
+			stop = append(stop, "setProposal")
+		case src == "err = keeper.InactiveProposalsQueue.Set(ctx, collections.Join(*proposal.DepositEndTime, proposalID), proposalID)":
+			stop = append(stop, "inactiveQueueSet:depositEnd")
+		case src == "err = keeper.Hooks().AfterProposalSubmission(ctx, proposalID)":
+			stop = append(stop, "hooks")
+		case strings.HasPrefix(src, "sdkCtx.EventManager().EmitEvent("):
+			stop = append(stop, "event")
+		case src == "return proposal, nil":
+			stop = append(stop, "return")
+		default:
+			if len(src) > 160 {
+				src = src[:160] + "…"
+			}
+			stop = append(stop, "other:"+src)
+		}
+	}
+	list("sdkSubmitSteps", "SDK x/gov/keeper/proposal.go SubmitProposal: its top-level statements in source order (plain error checks skipped)", stop)
+	list("sdkSubmitLoop", "… the body of its loop over the proposal messages", sloop)
+
+	// ---- AddVote
+	var vtop []string
+	for _, st := range body("AddVote") {
+		src := squash(c.src(st))
+		if is, ok := st.(*ast.IfStmt); ok && is.Init == nil && squash(c.src(is.Cond)) == "err != nil" {
+			continue
+		}
+		switch {
+		case src == "inVotingPeriod, err := keeper.VotingPeriodProposals.Has(ctx, proposalID)":
+			vtop = append(vtop, "inVotingPeriod=VotingPeriodProposals.Has")
+		case strings.HasPrefix(src, "if !inVotingPeriod { return errors.Wrapf(types.ErrInactiveProposal"):
+			vtop = append(vtop, "rejectUnlessVoting")
+		case src == "err = keeper.assertMetadataLength(metadata)":
+			vtop = append(vtop, "assertMetadata")
+		case strings.HasPrefix(src, "for _, option := range options { if !v1.ValidWeightedVoteOption(*option) { return errors.Wrap(types.ErrInvalidVote"):
+			vtop = append(vtop, "optionsValid")
+		case src == "vote := v1.NewVote(proposalID, voterAddr, options, metadata)":
+			vtop = append(vtop, "newVote")
+		case src == "err = keeper.Votes.Set(ctx, collections.Join(proposalID, voterAddr), vote)":
+			vtop = append(vtop, "votesSet")
+		case src == "err = keeper.Hooks().AfterProposalVote(ctx, proposalID, voterAddr)":
+			vtop = append(vtop, "hooks")
+		case src == "sdkCtx := sdk.UnwrapSDKContext(ctx)":
+			vtop = append(vtop, "sdkCtx")
+		case strings.HasPrefix(src, "sdkCtx.EventManager().EmitEvent("):
+			vtop = append(vtop, "event")
+		case src == "return nil":
+			vtop = append(vtop, "return")
+		default:
+			if len(src) > 160 {
+				src = src[:160] + "…"
+			}
+			vtop = append(vtop, "other:"+src)
+		}
+	}
+	list("sdkAddVoteSteps", "SDK x/gov/keeper/vote.go AddVote: its top-level statements in source order (plain error checks skipped)", vtop)
 
 	// ---- RefundAndDeleteDeposits: `return keeper.IterateDeposits(ctx, proposalID, func(key, deposit) (bool, error) { … })`
 	var rtags []string
